@@ -202,6 +202,7 @@ def permuted_equal(form, ref, nparams):
         cand_n = tuple((tuple(sorted([((G.norm_eq(c) if isinstance(c, str) else c), tr) for c, tr in g], key=str)), kind, text) for (g, kind, text) in cand)
         ref_n = tuple((tuple(sorted(g, key=str)), kind, text) for (g, kind, text) in ref)
         if sorted(map(str, cand_n)) == sorted(map(str, ref_n)):
+            permuted_equal.last = (idx, list(perm))
             return ref
     return None
 
@@ -339,6 +340,28 @@ def run(ctx):
         cores[t] = {(kind, alias.get(name, name)): f for (kind, name), f in family_core(prog, t).items()}
     for old_name, new_name in sorted(alias.items()):
         ctx.add(RULE, None, 'renamed(%s)' % new_name, 'info', 'private function %s has the guarded effects of %s in the other copies and is compared with it' % (old_name, new_name), PROPS, 0, nontrivial=False)
+    pending_perms = {}
+    if not getattr(prog, '_arg_perm', None):
+        # pre-pass: private functions whose parameters were reordered in one copy
+        for key in sorted(set().union(*[set(c) for c in cores.values()])) if cores else []:
+            have = [t for t in trees if key in cores[t]]
+            if len(have) < 2 or key[0] == 'pool':
+                continue
+            gs0 = {t: G.gef(prog, cores[t][key], inline=True) for t in have}
+            for t in have[1:]:
+                if gs0[t] != gs0[have[0]]:
+                    alt = permuted_equal(gs0[t], gs0[have[0]], cores[t][key].body.arg_count)
+                    if alt is not None:
+                        idx_, perm_ = permuted_equal.last
+                        n_ = cores[t][key].body.arg_count
+                        order = list(range(n_))
+                        for a_, b_ in zip(idx_, perm_):
+                            order[b_ - 1] = a_ - 1
+                        pending_perms[cores[t][key].path] = order
+        if pending_perms:
+            prog._arg_perm = dict(pending_perms)
+            for k in [k for k in prog._summ_cache if k and k[0] == 'gef']:
+                del prog._summ_cache[k]
     # ---- 1. sibling agreement -------------------------------------------------------------------
     forms = {t: {k: canon_fn(f.hir, 'num') for k, f in cores[t].items()} for t in trees}
     all_keys = sorted(set().union(*[set(c) for c in cores.values()])) if cores else []
@@ -373,6 +396,13 @@ def run(ctx):
                             alt = permuted_equal(gs[t], gs[ref_t], cores[t][key].body.arg_count)
                             if alt is not None:
                                 gs[t] = alt
+                                # remember it: callers in this copy pass their arguments in the permuted order
+                                idx_, perm_ = permuted_equal.last
+                                n_ = cores[t][key].body.arg_count
+                                order = list(range(n_))
+                                for a_, b_ in zip(idx_, perm_):
+                                    order[b_ - 1] = a_ - 1
+                                pending_perms[cores[t][key].path] = order
                 if all(gs[t] == gs[ref_t] for t in have):
                     diffs = []
                     f = cores[ref_t][key]
